@@ -133,7 +133,7 @@ class argument_interpreter:
                 self.get_path_score(object_locator.path, target_path)
                 for target_path in self.target_paths
             ]
-            max_score = max(scores)
+            max_score = max(scores, default=0)
             if max_score == 0:
                 raise freephil.Sorry(
                     "Unknown %sparameter definition: %s"
